@@ -7,6 +7,7 @@
 -/
 import SeataModel.XA.Branch
 import SeataModel.XA.Conn
+import SeataModel.XA.KeeperLemmas
 namespace Seata.Props.C17
 open Seata.XA
 
@@ -135,5 +136,85 @@ theorem C17_before_fix_statement_runs_bare :
 
 example : (crun cstep {} [.begin .none, .stmt .stmt, .stmt .none, .commitTx .none, .stmt .start, .stmt .none]).2
     = [true, true, true] := by decide
+
+/-! ### the keeper: which branches a connection is kept for (XA/Keeper.lean) -/
+section keeper
+open Seata.XA.Keeper
+
+/-- phase two of branch x takes x, and nothing else, out of the keeper: "phase two addresses the prepared
+    branch" for the bookkeeping as well as for the command -/
+theorem C17_finish_releases_exactly (s : St) (x : Nat) :
+    kept (step s (.finish x)) = (kept s).filter (· ≠ x) := finish_kept s x
+
+/-- another branch the connection holds stays in the keeper -/
+theorem C17_other_branches_stay (s : St) (x y : Nat) (h : y ≠ x) (hy : y ∈ kept s) :
+    y ∈ kept (step s (.finish x)) := by
+  rw [finish_kept]
+  simp [List.mem_filter, hy, h]
+
+/-- the finished branch is gone from the keeper -/
+theorem C17_finished_branch_released (s : St) (x : Nat) : x ∉ kept (step s (.finish x)) := finished_released s x
+
+/-- the checker leaves a connection alone none of whose branches is prepared: an application's local transaction
+    may take as long as it likes -/
+theorem C17_checker_spares_unprepared (s : St) (h : ∀ e ∈ s.held, e.2 = false) : step s .tick = s :=
+  tick_spares s h
+
+/-- nor does it take a connection away under the branch the application is working on, for the sake of an older
+    branch that is prepared on the same session -/
+theorem C17_checker_spares_a_working_connection (s : St) (x : Nat) (h : s.cur = some x) : step s .tick = s := by
+  simp [step, h]
+
+/-- BeginTx on a connection that holds nothing prepared, then any number of looks of the checker: the connection
+    is as it was (in particular not closed, and the branch is still the one it works on) -/
+theorem C17_open_transaction_survives_the_checker (s : St) (x n : Nat) (h : ∀ e ∈ s.held, e.2 = false) :
+    run (step s (.begin x)) (List.replicate n .tick) = step s (.begin x) :=
+  ticks_spare n _ (begin_unprepared s x h)
+
+/-- non-vacuity: a fresh connection meets the hypothesis -/
+example : ∀ e ∈ ({} : St).held, e.2 = false := by simp
+
+/-- the situation of the defect, at HEAD: two branches prepared one after the other on one connection, phase
+    two for the first, then for the second — the keeper loses exactly the finished branch each time -/
+theorem C17_two_branches_one_connection :
+    kept (run {} [.begin 1, .prepare, .begin 2, .prepare, .finish 1]) = [2] ∧
+    kept (run {} [.begin 1, .prepare, .begin 2, .prepare, .finish 1, .finish 2]) = [] ∧
+    kept (run {} [.begin 1, .prepare, .begin 2, .prepare, .finish 2, .finish 1]) = [] := by decide
+
+/-- before the repair 7b62be0: phase two of the first branch released the second; the first stayed for good -/
+theorem C17_before_fix_finish_releases_another_branch :
+    (runOld {} [.begin 1, .prepare, .begin 2, .prepare, .finish 1]).keeper = [1] ∧
+    (runOld {} [.begin 1, .prepare, .begin 2, .prepare, .finish 1, .finish 2]).keeper = [1] := by decide
+
+/-- before the repair: the checker closed a connection whose branch was not prepared -/
+theorem C17_before_fix_checker_closes_active_branch :
+    (runOld {} [.begin 1, .tick]).closed = true ∧ (run {} [.begin 1, .tick]).closed = false ∧
+    (run {} [.begin 1, .prepare, .begin 2, .tick]).closed = false ∧
+    (run {} [.begin 1, .prepare, .tick]).closed = true := by decide
+
+/-- nothing is kept that was not begun on this connection (an invariant over ALL operation sequences) -/
+theorem C17_kept_only_what_was_begun (ops : List Op) (s : St) (y : Nat) (hy : y ∈ kept (run s ops)) :
+    y ∈ kept s ∨ y ∈ begun ops := by
+  induction ops generalizing s with
+  | nil => exact Or.inl hy
+  | cons o r ih =>
+    simp only [run, List.foldl_cons] at hy
+    rcases ih (step s o) hy with h | h
+    · rcases kept_step_subset s o y h with h' | h'
+      · exact Or.inl h'
+      · subst h'; exact Or.inr (by simp [begun])
+    · right
+      cases o <;> simp [begun, h]
+
+/-- once a branch has been finished and is not begun again, it is never kept again: no entry survives its
+    phase two, whatever else happens on the connection afterwards -/
+theorem C17_released_for_good (ops : List Op) (s : St) (x : Nat) (hb : x ∉ begun ops) :
+    x ∉ kept (run (step s (.finish x)) ops) := by
+  intro h
+  rcases C17_kept_only_what_was_begun ops _ x h with h' | h'
+  · exact finished_released s x h'
+  · exact hb h'
+
+end keeper
 
 end Seata.Props.C17
